@@ -186,7 +186,7 @@ def short_case(rng, st):
 def supra(rng, st):
     names = [n for n in st.get("names", []) if n[1] not in (None, True)]
     nm = rng.choice(names)[1].split(" ")[0] if names and rng.random() < 0.8 else name(rng)
-    out = nm + rng.choice([", supra", ", supra,", " supra", ", 123 supra,", ", supra."])
+    out = nm + rng.choice([", supra", ", supra,", " supra", ", 123 supra,", ", supra.", ", supra note 5,", ", supra, note 12"])
     if rng.random() < 0.6:
         out += rng.choice([" at ", ", at ", " "]) + pin(rng)
     return out
